@@ -107,6 +107,7 @@ type runner struct {
 	data     string
 	mpath    string
 	witness  string
+	fifo     string
 	mu       sync.Mutex
 	events   []Event
 	l1       []string
@@ -154,6 +155,8 @@ func (r *runner) class(p string) string {
 		return "data"
 	case r.mpath:
 		return "mutex"
+	case r.fifo:
+		return "fifo"
 	}
 	return "other"
 }
@@ -239,6 +242,12 @@ func (r *runner) actor(name string, ops []Op) func() {
 					f, err = lockedfile.Edit(r.data)
 				case "create":
 					f, err = lockedfile.Create(r.data)
+				case "cf":
+					// Create on a file that cannot be truncated (a FIFO): the truncate error is tolerated,
+					// the returned File must still hold the write lock
+					f, err = lockedfile.Create(r.fifo)
+				case "wf":
+					f, err = lockedfile.Edit(r.fifo)
 				case "wx":
 					// a write-lock holder whose descriptor is also held by a child process (as in the fork/exec
 					// window of any concurrent command start, here made deterministic through ExtraFiles):
@@ -258,9 +267,13 @@ func (r *runner) actor(name string, ops []Op) func() {
 					r.log(Event{Ev: "ret", A: name, Op: o.Op, Res: "err"})
 					continue
 				}
-				r.log(Event{Ev: "acq", A: name, Op: o.Op, Mode: o.Mode, File: "data"})
-				r.critical(name, o.Mode != "r", "data")
-				r.log(Event{Ev: "rel", A: name, Op: o.Op, Mode: o.Mode, File: "data"})
+				dom := "data"
+				if o.Mode == "cf" || o.Mode == "wf" {
+					dom = "fifo"
+				}
+				r.log(Event{Ev: "acq", A: name, Op: o.Op, Mode: o.Mode, File: dom})
+				r.critical(name, o.Mode != "r", dom)
+				r.log(Event{Ev: "rel", A: name, Op: o.Op, Mode: o.Mode, File: dom})
 				err = f.Close()
 				r.log(Event{Ev: "ret", A: name, Op: o.Op, Res: okErr(err)})
 			case "mutex":
@@ -307,7 +320,11 @@ var tmpRoot string
 func newRunner(init []string) *runner {
 	dir := filepath.Join(tmpRoot, "lf")
 	os.MkdirAll(dir, 0o777)
-	r := &runner{dir: dir, data: filepath.Join(dir, "data"), mpath: filepath.Join(dir, "lock"), witness: filepath.Join(dir, "witness")}
+	r := &runner{dir: dir, data: filepath.Join(dir, "data"), mpath: filepath.Join(dir, "lock"), witness: filepath.Join(dir, "witness"),
+		fifo: filepath.Join(dir, "fifo")}
+	os.Remove(r.fifo)
+	syscall.Mkfifo(r.fifo, 0o666)
+	os.Remove(r.witness + "-fifo")
 	os.Remove(r.mpath)
 	os.Remove(r.witness + "-data")
 	os.Remove(r.witness + "-mutex")
